@@ -22,6 +22,8 @@ pub trait StrEnum: Clone + Debug + Serialize + DeserializeOwned + 'static {
     }
     /// `T::from(&str)`; `None` = the (validated) type refuses the string
     fn from_s(s: &str) -> Option<Self>;
+    /// the same conversion from an owned `String` (a separate impl in most types)
+    fn from_owned(s: String) -> Option<Self>;
     /// the string form (`AsRef<str>`, or `to_string` for the event-type enums)
     fn text(&self) -> String;
     fn display(&self) -> String;
@@ -59,6 +61,7 @@ macro_rules! se {
         use $ty as T;
         impl StrEnum for T {
             fn from_s(s: &str) -> Option<Self> { Some(T::from(s)) }
+            fn from_owned(s: String) -> Option<Self> { Some(T::from(s)) }
             fn text(&self) -> String { AsRef::<str>::as_ref(self).to_owned() }
             fn display(&self) -> String { self.to_string() }
             #[allow(deprecated)]
@@ -90,6 +93,7 @@ macro_rules! ev {
         use $ty as T;
         impl StrEnum for T {
             fn from_s(s: &str) -> Option<Self> { Some(T::from(s)) }
+            fn from_owned(s: String) -> Option<Self> { Some(T::from(s)) }
             fn text(&self) -> String { self.to_string() }
             fn display(&self) -> String { format!("{self}") }
             #[allow(deprecated)]
@@ -317,6 +321,17 @@ fn eval_input<T: StrEnum>(e: &Entry, s: &str, class: Class, t: &mut Tally) -> Ve
         }
         Ok(Some(v)) => v,
     };
+    // the owned-String entry point must give the same value
+    t.transitions += 1;
+    match catch(|| T::from_owned(s.to_owned())) {
+        Err(p) => out.push((format!("panic/{}/{ty}", p.file()), format!("{ty}::from(String {s:?}): {}", p.text))),
+        Ok(None) => out.push((format!("owned-form/{ty}/{c}"), format!("{ty}: &str {s:?} is accepted, the owned String is refused"))),
+        Ok(Some(o)) => {
+            if format!("{o:?}") != format!("{v:?}") || T::eq(&o, &v) == Some(false) {
+                out.push((format!("owned-form/{ty}/{c}"), format!("{ty}: from(&str {s:?}) = {v:?}, from(String) = {o:?}")));
+            }
+        }
+    }
     let exp = expected_text(e, s);
     let text = v.text();
     if text != exp {
